@@ -2,6 +2,7 @@ From Coq Require Import List Arith.
 Import ListNotations.
 From Coq Require Import ZArith.
 From UJ Require Import Engine.Engine Engine.EngineErr Engine.EngineComplete Engine.Retry Engine.RetryProofs.
+From UJ Require Run.Api.
 
 Theorem C10_inflight_le_workers :
   forall (c : cfg) (s : st), cfg_ok c -> reachable c s -> inflight s <= workers c.
@@ -73,3 +74,27 @@ Theorem C10_retry_reports_last :
   retry_call attempts f = (RRaise (exc (Z.to_nat attempts - 1)%nat), Z.to_nat attempts).
 Proof. exact retry_reports_last. Qed.
 Print Assumptions C10_retry_reports_last.
+
+(** The limits reach the engine passes unchanged (Run/Api.v, the plumbing of [run]): the run pass gets max_workers,
+    max_errors and the scheduler; the stale check gets stale_check_max_workers - max_workers when that is not given - and
+    tolerates no error; both grant every operation the attempts the retry argument stands for. *)
+Theorem C10_limits_reach_the_engine :
+  forall (a : Api.args) (l : list Api.step) (b : bool) (p : Api.pass),
+  Api.run_api a = Api.Steps l b ->
+  (In (Api.StRun p) l ->
+     Api.p_workers p = Api.a_max_workers a /\ Api.p_max_errors p = Api.a_max_errors a /\
+     Api.p_sched p = Api.sched_of (Api.a_scheduler a) /\ Api.attempts_of (Api.a_retry a) = Some (Api.p_attempts p)) /\
+  (In (Api.StStaleCheck p) l ->
+     Api.p_workers p = match Api.a_stale_workers a with Some w => Some w | None => Api.a_max_workers a end /\
+     Api.p_max_errors p = Some 0%Z /\ Api.attempts_of (Api.a_retry a) = Some (Api.p_attempts p)).
+Proof. exact Api.limits_reach_the_engine. Qed.
+Print Assumptions C10_limits_reach_the_engine.
+
+(** Out-of-range limits are rejected before anything is started. *)
+Theorem C10_invalid_limits_rejected :
+  forall a : Api.args,
+  (exists w, Api.a_max_workers a = Some w /\ (w < 1)%Z) \/ (exists w, Api.a_stale_workers a = Some w /\ (w < 1)%Z) \/
+  (exists e, Api.a_max_errors a = Some e /\ (e < 0)%Z) \/ (exists n, Api.a_retry a = Api.RInt n /\ (n < 1)%Z) ->
+  Api.run_api a = Api.Rejected.
+Proof. exact Api.invalid_limits_rejected. Qed.
+Print Assumptions C10_invalid_limits_rejected.
